@@ -235,6 +235,139 @@ class CFG:
         return seen
 
 
+
+# ---- alias layer: functions / fields that were only renamed or moved -----------------------------------------------------------------
+BASELINE = os.path.join(os.path.dirname(os.path.dirname(os.path.abspath(__file__))), 'rules', 'anchor_baseline.json')
+
+
+def fn_sigkey(fr):
+    """signature up to parameter order: kind-independent multiset of parameter types + return type"""
+    tys = [l['ty'] for l in fr['locals'][:fr['arg_count'] + 1]]
+    return [tys[0]] + sorted(tys[1:])
+
+
+def fn_callees(fr):
+    out = []
+    for b in fr['blocks']:
+        if b['cleanup']:
+            continue
+        t_ = b['term']
+        if t_['k'] == 'call':
+            n = t_['callee'].get('pretty') or t_['callee'].get('declared')
+            if n:
+                out.append(n)
+    return sorted(out)
+
+
+def compute_aliases(raws):
+    """({current function name: baseline name}, {(adt, current field): baseline field}) for functions / fields of the baseline that are
+    absent from the current tree while exactly one new item matches them (same signature multiset and the closest callee multiset for
+    functions; same position and type for fields).  The rules are written against the baseline names; an alias only re-attaches them to the
+    same code under its new name - what that code does is then decided by the rules as usual."""
+    try:
+        base = json.load(open(BASELINE))
+    except Exception:
+        return {}, {}
+    cur = {}
+    cur_adts = {}
+    for raw in raws:
+        if raw['kind'] in ('bin', 'build'):
+            continue
+        for fr in raw['fns']:
+            if fr['kind'] == 'Closure' or fr.get('derived'):
+                continue
+            cur[fr['pretty']] = (fn_sigkey(fr), fn_callees(fr), raw['crate'])
+        for a in raw['adts']:
+            cur_adts[a['path']] = [[(f['name'], f['ty']) for f in v['fields']] for v in a['variants']]
+    missing = [n for n in base['fns'] if n not in cur]
+    extra = [n for n in cur if n not in base['fns']]
+    fn_alias = {}
+    if missing and extra:
+        def sim(a, b):
+            from collections import Counter
+            ca, cb = Counter(a), Counter(b)
+            inter = sum((ca & cb).values())
+            union = sum((ca | cb).values())
+            return inter / union if union else 1.0
+        changed = True
+        while changed:
+            changed = False
+            ren = {v: k for k, v in fn_alias.items()}        # baseline -> current, to compare callee lists under the renames found so far
+            for m in missing:
+                if m in fn_alias.values():
+                    continue
+                b = base['fns'][m]
+                cands = [n for n in extra if n not in fn_alias and cur[n][0] == b['sig'] and cur[n][2] == b['crate']]
+                if not cands:
+                    continue
+                want = [fn_alias_inv_get(ren, x) for x in b['callees']]
+                scored = sorted(((sim(want, cur[n][1]), n) for n in cands), reverse=True)
+                if len(scored) == 1 or (scored[0][0] >= 0.5 and scored[0][0] - scored[1][0] >= 0.2):
+                    if scored[0][0] >= 0.5 or len(cands) == 1 and len(missing) == 1:
+                        fn_alias[scored[0][1]] = m
+                        changed = True
+    field_alias = {}
+    for path, variants in base['adts'].items():
+        cv = cur_adts.get(path)
+        if cv is None or len(cv) != len(variants):
+            continue
+        for bv, nv in zip(variants, cv):
+            if len(bv) != len(nv):
+                continue
+            for (bn, bt), (nn, nt) in zip(bv, nv):
+                if bn != nn and bt == nt and bn not in [x[0] for x in nv] and nn not in [x[0] for x in bv]:
+                    field_alias[(path, nn)] = bn
+    return fn_alias, field_alias
+
+
+def fn_alias_inv_get(ren, x):
+    return ren.get(x, x)
+
+
+def apply_aliases(raw, fn_alias, field_alias):
+    """rewrite one crate's facts to baseline names (functions incl. their closures; struct fields)"""
+    pairs = sorted(fn_alias.items(), key=lambda kv: -len(kv[0]))
+
+    def fix_str(s):
+        for new, old in pairs:
+            if new in s:
+                i = s.find(new)
+                while i != -1:
+                    j = i + len(new)
+                    if (j == len(s) or not (s[j].isalnum() or s[j] == '_')) and (i == 0 or not (s[i - 1].isalnum() or s[i - 1] == '_')):
+                        s = s[:i] + old + s[j:]
+                        i = s.find(new, i + len(old))
+                    else:
+                        i = s.find(new, j)
+        return s
+
+    def walk(x):
+        if isinstance(x, dict):
+            if 'field' in x and 'of' in x and (x['of'], x['field']) in field_alias:
+                x['field'] = field_alias[(x['of'], x['field'])]
+            if x.get('k') == 'aggregate' and x.get('adt') and x.get('field_names'):
+                x['field_names'] = [field_alias.get((x['adt'], f), f) for f in x['field_names']]
+            for k, v in list(x.items()):
+                if isinstance(v, str):
+                    if pairs:
+                        x[k] = fix_str(v)
+                else:
+                    walk(v)
+        elif isinstance(x, list):
+            for i, v in enumerate(x):
+                if isinstance(v, str):
+                    if pairs:
+                        x[i] = fix_str(v)
+                else:
+                    walk(v)
+    walk(raw)
+    for a in raw['adts']:
+        for v in a['variants']:
+            for f in v['fields']:
+                f['name'] = field_alias.get((a['path'], f['name']), f['name'])
+    return raw
+
+
 class Facts:
     def __init__(self, d):
         self.dir = d
@@ -245,10 +378,14 @@ class Facts:
         self.adts = {}
         self.mods = {}
         self.crates = {}
+        raws = []
         for fname in FILES:
-            p = os.path.join(d, fname)
-            with open(p) as f:
-                raw = json.load(f)
+            with open(os.path.join(d, fname)) as f:
+                raws.append(json.load(f))
+        self.fn_aliases, self.field_aliases = compute_aliases(raws)
+        if self.fn_aliases or self.field_aliases:
+            raws = [apply_aliases(r, self.fn_aliases, self.field_aliases) for r in raws]
+        for raw in raws:
             key = (raw['crate'], raw['kind'])
             self.crates[key] = raw
             for fr in raw['fns']:
